@@ -102,3 +102,13 @@ func SplitRtp(data []byte, pt uint8, seq *uint16, ts uint32, ssrc uint32, limit 
 	}
 	return out
 }
+
+// PsPesNoPts writes a PES packet without PTS / DTS (a continuation of the frame the previous PES began).
+func PsPesNoPts(streamID uint8, payload []byte) []byte {
+	n := 3 + len(payload)
+	if n > 0xFFFF {
+		n = 0
+	}
+	b := []byte{0, 0, 1, streamID, byte(n >> 8), byte(n), 0x80, 0x00, 0}
+	return append(b, payload...)
+}
